@@ -30,8 +30,9 @@
 (*      refused; a read returns <<bits, 0>>; nothing but cccd[c][h] changes; the subscription *)
 (*      callback count of a request is 1 iff the stored value changed, else 0.                *)
 (*                                                                                          *)
-(* Out of scope (owned by other properties, therefore loose here): contents of discovery     *)
-(* responses other than Read By Type (C02/C03: only bounded by the MTU here), which           *)
+(* Out of scope (owned by other properties, therefore loose here): which attributes a         *)
+(* discovery response lists (C02/C03: Read By Type entries are checked for permission and     *)
+(* current value only, the other discovery responses only for the MTU bound), which           *)
 (* notification is delivered when (C10-C12), capacity of the prepare queue (C07: Prepare      *)
 (* Queue Full is always an allowed answer), link encryption (C05: declarations with           *)
 (* encryption requirements are refused by Reset), malformed PDUs (C01: any error response).   *)
@@ -99,15 +100,31 @@ Pat(k, b, codes) == [k |-> k, b |-> b, codes |-> codes]
 PBytes(b)   == Pat("bytes", b, {})          \* exactly these octets (<<>> = no response)
 PErr(codes) == Pat("err", <<>>, codes)      \* error response for this request with one of these codes (handle field free)
 PAnyErr     == Pat("anyerr", <<>>, {})      \* any error response for this request (malformed PDU; C01)
-PReadByType == Pat("rbt", <<>>, {})         \* AttDiscovery!ResponseOK on the current values
+PReadByType == Pat("rbt", <<>>, {})         \* RbtOK: listed attributes are readable and carry their current value
 PBounded    == Pat("bounded", <<>>, {})     \* anything within the MTU (owned by another property)
+
+\* Read By Type on the value store. WHICH matching attributes are listed is C02's subject (AttDiscovery); here: every
+\* listed attribute has the requested type, may be read, and is reported with the prefix of its current value that
+\* has the common entry length; the first entry is as long as the MTU allows (Min(length, MTU - 4, 253))
+RbtEntries(out) == [i \in 1..((Len(out) - 2) \div out[2]) |-> SubSeq(out, 3 + (i - 1) * out[2], 2 + i * out[2])]
+RbtListed(out) == Len(out) >= 4 /\ out[1] = RspReadByType /\ out[2] >= 2 /\ (Len(out) - 2) % out[2] = 0
+RbtEntryOK(c, in, e) ==
+    /\ HasAttr(T, U16(e, 1))
+    /\ LET a == AttrOf(U16(e, 1))  v == CurVal(c, AttrOf(U16(e, 1))) IN
+       a.rd /\ TypeEq(a.type, Drop(in, 5)) /\ Len(e) - 2 <= Len(v) /\ Drop(e, 2) = Take(v, Len(e) - 2)
+RbtOK(c, in, out) ==
+    \/ IsError(out, in[1])
+    \/ /\ RbtListed(out)
+       /\ \A i \in 1..Len(RbtEntries(out)) : RbtEntryOK(c, in, RbtEntries(out)[i])
+       /\ LET e == RbtEntries(out)[1] IN
+          Len(e) - 2 = Min(Min(Len(CurVal(c, AttrOf(U16(e, 1)))), Mtu(c) - 4), 253)
 
 PatMatches(p, c, in, out) ==
     /\ Len(out) <= Mtu(c)
     /\ CASE p.k = "bytes"   -> out = p.b
          [] p.k = "err"     -> IsErrorCode(out, in[1], p.codes)
          [] p.k = "anyerr"  -> IsError(out, in[1])
-         [] p.k = "rbt"     -> ResponseOK(Cur(c), in, out, Mtu(c), FALSE)
+         [] p.k = "rbt"     -> RbtOK(c, in, out)
          [] p.k = "bounded" -> TRUE
 
 \* an outcome: response pattern + complete next state + number of subscription callbacks
